@@ -91,7 +91,14 @@ def main():
             res["demo_fails_on_patched"] = rc != 0 and "VIOLATION" in out
             # the check
             props = [prop]
-            rc, out = sh("%s -repo %s -verif %s -prop %s -no-evidence -replaydir %s" % (GOVC, scratch, VERIF, prop, os.path.join(tmp, "replay")), VERIF)
+            files_opt = ""
+            if "--fast" in args:
+                # contracts are modular: only functions in the files the patch touches
+                # have different obligations (whole-program structural checks still run)
+                fl = sorted(set(re.findall(r"^\+\+\+ b/(\S+\.go)", open(os.path.join(d, "patch.diff")).read(), re.M)))
+                if fl:
+                    files_opt = " -files " + ",".join(fl)
+            rc, out = sh("%s -repo %s -verif %s -prop %s -no-evidence -replaydir %s%s" % (GOVC, scratch, VERIF, prop, os.path.join(tmp, "replay"), files_opt), VERIF)
             viol = sorted(set(re.findall(r"^VIOLATION property=%s replay=\S*?/([^/\s]+)\.json" % prop, out, re.M)))
             res["check_rc"] = rc
             res["obligations_reported"] = viol[:12]
